@@ -629,12 +629,12 @@ func init() {
 		Gen:  gen17,
 		Key: func(c Case) string {
 			var b strings.Builder
-			b.WriteString(c.Obj)
+			b.WriteString(c.Obj + "@" + c.Scope)
 			for _, o := range c.Ops {
 				b.WriteString("|" + o.String())
 			}
 			if c.Op2 != nil {
-				b.WriteString("||" + c.Obj2 + "|" + c.Op2.String())
+				b.WriteString("||" + c.Obj2 + "@" + c.Scope2 + "|" + c.Op2.String())
 			}
 			if len(c.Keys) > 0 {
 				b.WriteString("||keys")
